@@ -21,6 +21,7 @@ import (
 	"github.com/acquirecloud/golibs/kvs"
 	"github.com/acquirecloud/golibs/ulidutils"
 	"github.com/gobwas/glob"
+	"math"
 	"sync"
 	"time"
 )
@@ -185,7 +186,12 @@ func (s *service) WaitForVersionChange(ctx context.Context, key, ver string) err
 		// a record with an expiration disappears by itself: wake up when that time has come
 		var expired <-chan time.Time
 		if r.ExpiresAt != nil {
-			tmr := time.NewTimer(r.ExpiresAt.Sub(time.Now()) + time.Nanosecond)
+			d := r.ExpiresAt.Sub(time.Now())
+			if d < math.MaxInt64 {
+				// Sub saturates for a far-future expiration: adding to it would wrap and fire the timer at once
+				d += time.Nanosecond
+			}
+			tmr := time.NewTimer(d)
 			defer tmr.Stop()
 			expired = tmr.C
 		}
